@@ -1,4 +1,5 @@
 //! Reference implementations written for this harness, independent of rPGP's own code.
+pub mod gen;
 pub mod sigdigest;
 pub mod text;
 pub mod wire;
